@@ -15,13 +15,18 @@ LocDecl == {"loc.s", "loc.n", "loc.b", "loc.l", "loc.l[0]", "loc.l[1]", "loc.o",
 BDecl == {"b", "b.v", "b.sa", "b.part", "b.part[0]", "b.part[1]", "b.part[0].pw", "b.part[0].ph", "b.part[1].pw", "b.part[1].ph"}
 SelfDecl == {"self.v", "self.sa", "self.part", "self.part[0]", "self.part[1]", "self.part[0].pw", "self.part[0].ph", "self.part[1].pw", "self.part[1].ph"}
 
+\* placement 2: two blocks of one type, c "one" (with a written list) and c "two" (being edited); self.* is c.two.*
+CDecl == {"c.one", "c.one.tags", "c.one.tags[0]", "c.one.tags[1]", "c.one.v", "c.two", "c.two.tags", "c.two.v"}
+SelfC == {"self.tags", "self.v"}
+
 IsPrefixStr(p, s) == Len(p) <= Len(s) /\ SubSeq(s, 1, Len(p)) = p
 \* x is a proper descendant of d:  d followed by "." or "["
 Descends(x, d) == Len(x) > Len(d) /\ SubSeq(x, 1, Len(d)) = d /\ SubSeq(x, Len(d) + 1, Len(d) + 1) \in {".", "["}
 
 \* declarations visible from the cursor: env = [level, self : BOOLEAN, edited : the address texts of the attribute being edited]
 Visible(env) ==
-  ((LocDecl \cup (IF env.level >= 1 THEN BDecl ELSE {})) \cup (IF env.level >= 1 /\ env.self THEN SelfDecl ELSE {})) \ env.edited
+  (IF env.level = 2 THEN LocDecl \cup CDecl \cup (IF env.self THEN SelfC ELSE {})
+   ELSE (LocDecl \cup (IF env.level = 1 THEN BDecl ELSE {})) \cup (IF env.level = 1 /\ env.self THEN SelfDecl ELSE {})) \ env.edited
 
 \* conv : address text -> BOOLEAN (does the declared type convert to the expected one) - from cty, via the harness
 Fits(d, env, conv) == d \in DOMAIN conv /\ (conv[d] \/ \E x \in Visible(env) \cap DOMAIN conv : Descends(x, d) /\ conv[x])
